@@ -49,6 +49,21 @@ Theorem C22_current_wp_storage_independent : forall depth warn l, forallb safe_f
     whole_program depth warn (map (fun s => load gen_names (store gen_names s)) l) = whole_program depth warn l.
 Proof. exact current_wp_storage_independent. Qed.
 
+(* --- ids / argument names are written through toxml (fix cf4f724): for EVERY byte string the attribute is well
+   formed, and on the lossless domain (double quote and ampersand included) it is read back unchanged *)
+Theorem C22_current_ids_escaped : ids_escb gen_names = true.
+Proof. exact current_ids_escaped. Qed.
+
+Theorem C22_current_id_wellformed : forall s,
+    raw_ok (wr (e_callid gen_names) s) = true /\ raw_ok (wr (e_ncmyid gen_names) s) = true /\
+    raw_ok (wr (e_uumyid gen_names) s) = true /\ raw_ok (wr (e_uuarg gen_names) s) = true.
+Proof. exact current_id_wellformed. Qed.
+
+Theorem C22_current_id_roundtrip : forall s, safe_str s = true ->
+    dec (wr (e_callid gen_names) s) = s /\ dec (wr (e_ncmyid gen_names) s) = s /\
+    dec (wr (e_uumyid gen_names) s) = s /\ dec (wr (e_uuarg gen_names) s) = s.
+Proof. exact current_id_roundtrip. Qed.
+
 (* --- the names of the code before fix 7d88646 (NestedCall written as <function-call>): exactly the nested calls are lost *)
 Theorem C22_ctu_roundtrip_nonnested_partial : forall nm c, nm_nested_as_fc nm -> forallb safe_fc (c_fcs c) = true ->
     load_ctu nm (ctu_to_xml nm c) = mkCtu (c_fcs c) [].
@@ -89,6 +104,9 @@ Print Assumptions C22_wp_storage_independent.
 Print Assumptions C22_current_names_ok.
 Print Assumptions C22_current_ctu_roundtrip.
 Print Assumptions C22_current_wp_storage_independent.
+Print Assumptions C22_current_ids_escaped.
+Print Assumptions C22_current_id_wellformed.
+Print Assumptions C22_current_id_roundtrip.
 Print Assumptions C22_ctu_roundtrip_nonnested_partial.
 Print Assumptions C22_old_names_ctu_roundtrip_refuted.
 Print Assumptions C22_old_names_wp_storage_refuted.
@@ -113,6 +131,11 @@ Proof.
   eapply reach_nc with (n := w_nc); [vm_compute; tauto|reflexivity|reflexivity|].
   eapply reach_fc with (f := w_fc); [vm_compute; tauto|reflexivity|reflexivity|reflexivity].
 Qed.
+(* before cf4f724 a double quote in an id broke the attribute *)
+Example old_id_not_wellformed : raw_ok (wr (e_callid names_unfixed) [104;34;120;46;104]) = false.
+Proof. reflexivity. Qed.
+Example safe_str_with_quote : safe_str [104;34;120;46;104;38] = true.
+Proof. reflexivity. Qed.
 Example permutation_inhabited : Permutation w_files (rev w_files).
 Proof. apply Permutation_rev. Qed.
 (* why C22_wp_perm_partial is not stated for the findings themselves: the first matching call wins *)
